@@ -224,13 +224,16 @@ def build_driver():
         return 0, ""
 
 
-def build_harness(release=False):
+def build_harness(release=False, sync=True):
+    """sync=False: without the thread-sharing stream (C05), for a tree whose Program / Context /
+    Value are no longer Send + Sync - a violation of C05 alone; the other properties still get a
+    verdict from a harness built without that stream."""
     with Lock("cargo"):
         hd = os.path.join(ROOT, "harness")
         run(["cp", "/repo/Cargo.lock", os.path.join(hd, "Cargo.lock")])
         env = dict(CARGO_NET_OFFLINE="true", CARGO_TARGET_DIR=TARGET,
                    RUSTFLAGS=f"--cfg {GUARD} -Awarnings")
-        cmd = ["cargo", "build", "--offline", "-q"] + (["--release"] if release else [])
+        cmd = ["cargo", "build", "--offline", "-q"] + (["--release"] if release else []) + ([] if sync else ["--no-default-features"])
         rc, out = run(cmd, cwd=hd, env=env, timeout=1800)
         return rc, out
 
@@ -454,6 +457,11 @@ def main():
         gate["ok"] = False
         gate.setdefault("broken", "model does not build")
     rc, out = build_harness(False)
+    nosync = False
+    if rc != 0 and not P.get("build_failure_is_violation") and props.c05_build_failure(out):
+        log("harness: Program / Context / Value are not Send + Sync on this tree (C05's concern); building without the thread-sharing stream")
+        rc, out = build_harness(False, sync=False)
+        nosync = True
     if rc != 0:
         if P.get("build_failure_is_violation") and P["build_failure_is_violation"](out):
             path = write_replay(pid, dict(property=pid, kind="failing-input",
@@ -465,7 +473,7 @@ def main():
         sys.exit(2)
     profiles = [False]
     if tier == "thorough" and P.get("release_too"):
-        rc, out = build_harness(True)
+        rc, out = build_harness(True, sync=not nosync)
         if rc != 0:
             log("release harness build failed:\n" + out[-3000:])
             sys.exit(2)
